@@ -9,12 +9,13 @@
 
 enum c16_opkind {
 	OP_DIR, OP_DATA, OP_BIGDATA, OP_KERNEL, OP_PERF, OP_META, OP_INFO,
-	OP_TASKFILE, OP_MAPFILES, OP_SYMFILES, OP_DBGFILES, OP_END, OP_SLEEP, OP_RAW, OP_ABORT, OP_POST, OP_WAIT,
+	OP_TASKFILE, OP_MAPFILES, OP_SYMFILES, OP_DBGFILES, OP_END, OP_SLEEP, OP_RAW, OP_ABORT, OP_POST, OP_WAIT, OP_TDATA,
 };
 
 struct c16_op {
 	enum c16_opkind kind;
 	long num; /* tid / cpu / usec */
+	int thread; /* OP_TDATA: index of the writer thread that sends this buffer */
 	size_t len; /* bigdata */
 	uint64_t seed;
 	char *arg; /* hex */
